@@ -258,11 +258,14 @@ def project_book(m):
 def project(m, types=T1, is_block=False, real=False):
     """real: objects of the pipeline - the tag of an atom is "<chain>|<atom name>", the tag of an interaction all its
     parameters; otherwise the toy objects of the models (tag = atom name = chain; one parameter)."""
+    def num(x):           # an atom without the attribute (e.g. one created by add_edge) is projected to a value no model has
+        return x if isinstance(x, int) and not isinstance(x, bool) else -999
     if real:
-        nodes = tuple({'key': k, 'resid': d.get('resid'), 'cg': d.get('charge_group'), 'tag': '%s|%s' % (d.get('chain'), d.get('atomname'))}
+        nodes = tuple({'key': k, 'resid': num(d.get('resid')), 'cg': num(d.get('charge_group')), 'tag': '%s|%s' % (d.get('chain'), d.get('atomname'))}
                       for k, d in m.nodes(data=True))
     else:
-        nodes = tuple({'key': k, 'resid': d.get('resid'), 'cg': d.get('charge_group'), 'tag': d.get('atomname')}
+        nodes = tuple({'key': k, 'resid': num(d.get('resid')), 'cg': num(d.get('charge_group')),
+                       'tag': d.get('atomname') if isinstance(d.get('atomname'), str) else '<%r>' % (d.get('atomname'),)}
                       for k, d in m.nodes(data=True))
     edges = frozenset(_edge(a, b) for a, b in m.edges)
     inter = {}
